@@ -271,6 +271,8 @@ def run(ctx):
         # enumerated: a full operator of every form with one five-byte 16.16 operand at position p
         ("operand-value sweep, fractional (enumerated)", "Type2GlyphSweepFine.cfg",
          [("ValuePos <- AllPos", "ValuePos <- SomePos")] if ctx.quick() else (), "Type2TraceFine.cfg", None),
+        # enumerated: one delta of magnitude 32767.x .. 64000 with every quarter as fractional part
+        ("number-range sweep on quarter units (enumerated)", "Type2GlyphSweepQuarter.cfg", (), "Type2TraceQuarter.cfg", None),
         ("integer glyphs", "Type2GlyphGen.cfg", (), "Type2Trace.cfg", ctx.pick(220, 2500)),
         ("integer glyphs with corner-to-corner jumps", "Type2GlyphGen.cfg", [("FarJumps = FALSE", "FarJumps = TRUE")],
          "Type2Trace.cfg", ctx.pick(40, 400)),
